@@ -153,8 +153,9 @@ def images(ev, rng, tier):
                 choices = [list(range(k)) for k in range(0, n + 1, max(1, n // 6))]
                 choices += [[j for j in range(n) if j != k] for k in rng.sample(range(n), min(4, n))]
                 choices += [sorted(rng.sample(range(n), rng.randint(1, n - 1))) for _ in range(4 if tier != "thorough" else 24)]
-            if tier != "thorough" and len(choices) > 6:
-                choices = rng.sample(choices, 6)
+            cap = 6 if tier != "thorough" else 24
+            if len(choices) > cap:
+                choices = rng.sample(choices, cap)
             for ch in choices:
                 files = {f: bytearray(b) for f, b in durable.items()}
                 for j in ch:
@@ -201,7 +202,7 @@ def gen_history(rng, tier, fixed=None):
         return ["ensure 1", "av 1 latest:1 b:1", "as 1 latest:1 b:9,9", "av 1 latest:1 r:5000",
                 f"as 1 latest:1 r:{rng.choice([262144, 300000, 400000])}", "av 1 latest:1 b:2",
                 f"as 1 latest:1 r:{rng.choice([270000, 524288])}", "av 1 latest:1 r:100"]
-    n = rng.randint(4, 8) if tier != "thorough" else rng.randint(10, 25)
+    n = rng.randint(4, 8) if tier != "thorough" else rng.randint(8, 16)
     ops = ["ensure 1"]
     have = 0
     j = 0
@@ -245,8 +246,8 @@ def run_c04(tier, seed, replay=None):
     out = Outcome()
     problems = []
     rng = random.Random(seed)
-    nh = 3 if tier != "thorough" else 12
-    nhttp = 1 if tier != "thorough" else 4
+    nh = 3 if tier != "thorough" else 8
+    nhttp = 1 if tier != "thorough" else 3
     okb, sbin, blog = build.build_server_bin()
     if not okb:
         raise RuntimeError("server binary build failed: " + blog[-1500:])
